@@ -78,6 +78,7 @@ type runner struct {
 	s       *Stack
 	mu      sync.Mutex
 	pending map[string]chan struct{}
+	invTags map[string]bool
 	ninv    int
 	opWait  time.Duration
 }
@@ -236,6 +237,34 @@ func (r *runner) until(op *Op) error {
 	}
 }
 
+func (r *runner) settle(op *Op) error {
+	r.mu.Lock()
+	ch := r.pending[op.Tag]
+	r.mu.Unlock()
+	deadline := time.Now().Add(r.opWait)
+	name := strings.TrimPrefix(strings.TrimPrefix(op.Who, "ext:"), "int:")
+	for {
+		if ch != nil {
+			select {
+			case <-ch:
+				return nil
+			default:
+			}
+		}
+		if op.Who == "rt" {
+			if r.s.RuntimeState() == "Ready" {
+				return nil
+			}
+		} else if r.s.AgentState(name) == "Ready" {
+			return nil
+		}
+		if time.Now().After(deadline) {
+			return hangError{fmt.Sprintf("settle %s/%s: neither returned nor parked", op.Tag, op.Who)}
+		}
+		time.Sleep(200 * time.Microsecond)
+	}
+}
+
 // Run executes one scenario on a fresh stack.
 func Run(sc *Scenario, outDir string) Outcome {
 	t0 := time.Now()
@@ -246,7 +275,7 @@ func Run(sc *Scenario, outDir string) Outcome {
 		return out
 	}
 	defer s.Close()
-	r := &runner{s: s, pending: map[string]chan struct{}{}, opWait: 20 * time.Second}
+	r := &runner{s: s, pending: map[string]chan struct{}{}, invTags: map[string]bool{}, opWait: 20 * time.Second}
 	var wg sync.WaitGroup
 	for i := range sc.Ops {
 		op := &sc.Ops[i]
@@ -260,6 +289,9 @@ func Run(sc *Scenario, outDir string) Outcome {
 				if op.Tag != "" {
 					r.mu.Lock()
 					r.pending[op.Tag] = ch
+					if op.API == "invoke" {
+						r.invTags[op.Tag] = true
+					}
 					r.mu.Unlock()
 				}
 				wg.Add(1)
@@ -280,14 +312,26 @@ func Run(sc *Scenario, outDir string) Outcome {
 		case "wait":
 			r.mu.Lock()
 			ch := r.pending[op.Tag]
+			isInv := r.invTags[op.Tag]
 			r.mu.Unlock()
 			if ch != nil {
+				bound := r.opWait
+				if isInv {
+					// an invocation must be answered within timeout + reset allowance (2 s) + exit grace (2 s) + slack
+					bound = time.Duration(s.Opt.TimeoutMs)*time.Millisecond + 4*time.Second + 3*time.Second
+				}
 				select {
 				case <-ch:
-				case <-time.After(r.opWait):
+				case <-time.After(bound):
+					if isInv {
+						s.Rec.Emit("drv", "NoOutcome", "tag", op.Tag, "boundMs", bound.Milliseconds())
+					}
 					herr = hangError{"wait " + op.Tag + " did not return"}
 				}
 			}
+		case "settle":
+			// wait until the asynchronous call has returned or its party is parked in a poll
+			herr = r.settle(op)
 		case "until":
 			herr = r.until(op)
 		case "sleep":
@@ -314,20 +358,21 @@ func Run(sc *Scenario, outDir string) Outcome {
 			break
 		}
 	}
-	// join outstanding asynchronous calls (bounded)
+	// the trace ends here; polls that are still parked are aborted on the client side
+	s.Rec.Emit("drv", "End", "status", out.Status)
+	evs := s.Rec.Events()
+	s.AbortClients()
 	joined := make(chan struct{})
 	go func() { wg.Wait(); close(joined) }()
 	select {
 	case <-joined:
 	case <-time.After(r.opWait):
 		if out.Status == "done" {
-			out.Status, out.Detail = "hang", "asynchronous calls still outstanding at the end of the script"
-			s.Rec.Emit("drv", "Hang", "detail", out.Detail)
+			// e.g. a caller inside Server.Invoke: cannot be aborted from outside
+			out.Status, out.Detail = "hang", "calls still outstanding after the end of the script"
 			_ = os.WriteFile(filepath.Join(outDir, sc.ID+".goroutines.txt"), []byte(gstate.Dump()), 0o644)
 		}
 	}
-	s.Rec.Emit("drv", "End", "status", out.Status)
-	evs := s.Rec.Events()
 	out.Events = len(evs)
 	if err := rec.WriteNDJSON(out.Trace, evs); err != nil {
 		out.Status, out.Detail = "error", err.Error()
